@@ -20,6 +20,7 @@ LEVEL = "exploration"
 RULE = (
     "real IH5MFRecords with 1-5 containers from random histories (manifest_exts given at some commits, omitted at "
     "others); after EVERY commit the sidecar is checked against the on-disk user block (sha256, uuid), against the "
+    "in-memory user blocks (also after refused commits that carry extensions: unknown option / no open patch), against the "
     "harness's own skeleton of the committed state (paths, kinds, attribute names, dataset patch_index computed by a raw "
     "per-container scan) and against the last given extensions. Then a stub is created from the newest manifest, "
     "compared (skeleton, all values Empty, merge refused), and an existence-based update history (create at fresh "
@@ -157,11 +158,39 @@ def one(rng, acc, d, record=True):
         elif r < 0.5:
             exts = {}
             kw["manifest_exts"] = {}
+        if rng.random() < 0.25:
+            # a refused commit (unknown option) that carries extensions: nothing of it may stick
+            try:
+                rec.commit_patch(manifest_exts={"refused": c}, no_such_option=True)
+                return "refused-commit-accepted", "commit_patch with an unknown option returned"
+            except Exception:
+                acc.count("refused_commits")
+                log.append(["refused-commit", "patch open"])
         rec.commit_patch(**kw)
         log.append(["commit", kw.get("manifest_exts", "inherit")])
         bad = check_manifest(rec, exts, acc)
         if bad:
             return bad
+        if rng.random() < 0.3:
+            # a refused commit (no patch open) that carries extensions: the committed state, on disk and as seen through
+            # the open record, stays what it was
+            mf_before = rec.manifest.json()
+            try:
+                rec.commit_patch(manifest_exts={"refused": c})
+                return "refused-commit-accepted", "commit_patch without an open patch returned"
+            except Exception:
+                acc.count("refused_commits")
+                log.append(["refused-commit", "no patch"])
+            bad = check_manifest(rec, exts, acc)
+            if bad:
+                return ("after-refused-commit:" + bad[0], bad[1])
+            if rec.manifest.json() != mf_before:
+                return "after-refused-commit:manifest-object", "record.manifest changed by a refused commit"
+            for i, (u, f) in enumerate(zip(rec.ih5_meta, rec.ih5_files)):
+                dk = RE.disk_ublock(f)
+                if json.loads(u.json()).get("ub_exts") != dk.get("ub_exts"):
+                    return "after-refused-commit:meta-vs-disk", (f"ih5_meta[{i}] links manifest {json.loads(u.json())['ub_exts'].get('ih5mf_v01', {}).get('manifest_uuid')}, "
+                                                                  f"the container on disk links {dk['ub_exts'].get('ih5mf_v01', {}).get('manifest_uuid')}")
         reopened = False
         if rng.random() < 0.3:  # extensions must also survive close/reopen
             rec.close()
@@ -291,7 +320,7 @@ def run_unit(u, acc):
 
 def inconclusive(cov):
     c = cov["counters"]
-    return [f"monitor counter {k} is zero" for k in ("manifest_checks", "stubs_compared", "stub_patches_joined") if not c.get(k)]
+    return [f"monitor counter {k} is zero" for k in ("manifest_checks", "refused_commits", "stubs_compared", "stub_patches_joined") if not c.get(k)]
 
 
 def replay(case, acc):
